@@ -287,8 +287,14 @@ def w_power(ctx, rng, idx):
         ctx.skip('power_method_no_spectral_gap')
         return
     sigma = float(w[k] + 0.04 * gmin * (1 if rng.random() < 0.5 else -1))
-    ctx.describe({'op': 'evp.power_method', 'dims': dims, 'complex': cplx, 'gevp': gevp, 'sigma': sigma, 'target': float(w[k])})
-    tags = (['complex'] if cplx else []) + (['gevp'] if gevp else [])
+    polish = (not gevp) and rng.random() < 0.25
+    if polish:
+        # the usual way to polish an eigenvector for a KNOWN eigenvalue: the shift is the eigenvalue as computed elsewhere (here: the
+        # dense reference), i.e. within a few rounding errors of the true one - the shifted systems are numerically singular and one
+        # inverse iteration with a backward-stable solve lands on the eigenvector
+        sigma = float(w[k]) + float([0.0, 3e-15, -3e-15, 2e-14][int(rng.integers(0, 4))]) * float(np.linalg.norm(Am, 2))
+    ctx.describe({'op': 'evp.power_method', 'dims': dims, 'complex': cplx, 'gevp': gevp, 'sigma': sigma, 'target': float(w[k]), 'shift_is_the_computed_eigenvalue': polish})
+    tags = (['complex'] if cplx else []) + (['gevp'] if gevp else []) + (['shift_is_the_computed_eigenvalue'] if polish else [])
     kw = {'operator_gevp': B} if B is not None else {}
     # a few iterations only (far from convergence): the reported value must be the Rayleigh quotient of the returned tensor all the same
     call('evp.power_method', evp.power_method, A, g, prop=P, tags=tags + ['few_iterations'], refusals=(np.linalg.LinAlgError,), repeats=int(rng.integers(1, 4)),
